@@ -133,6 +133,17 @@ def G4_strict(rep, flow: Flow, fqs):
                 idx = callee.params.index("allow_underconstrained")
                 v = ev[3].get("allow_underconstrained", ev[2][idx] if idx < len(ev[2]) else None)
                 n += 1
+                if v is None:
+                    # not passed: the callee's own default decides
+                    a = callee.node.args
+                    allp = a.posonlyargs + a.args
+                    dflt = None
+                    for arg, d in list(zip(allp[len(allp) - len(a.defaults):], a.defaults)) + list(zip(a.kwonlyargs, a.kw_defaults)):
+                        if arg.arg == "allow_underconstrained":
+                            dflt = d
+                    if not (isinstance(dflt, ast.Constant) and dflt.value is False):
+                        rep.finding("G4", f"{fq}:allow_underconstrained:default", f"{ev[4]}: {callee.qualname} is called without allow_underconstrained on the path of {f.qualname}, and its default is `{ast.unparse(dflt) if dflt is not None else 'none'}`, not False: an underconstrained (non-stabilizer) request no longer raises")
+                        continue
                 if v is None or (isinstance(v, Const) and not v.v):
                     rep.ok("G4", 1, nontrivial=(fq, ev[4]), sample=f"{f.qualname}: {callee.qualname}(...) at {ev[4]} with allow_underconstrained={'absent' if v is None else v.v}")
                 else:
@@ -587,12 +598,36 @@ def W10_requested_file(rep, flow: Flow, fqs=("mub_circuits.get_mub_circuits", "m
                 want_n, want_c = ("param", "num_qubits"), ("param", "connectivity")
                 if kind == "mub" and nk == want_n and ck == want_c:
                     rep.ok("W10", 1, nontrivial=(fq, ev[2]), sample=f"{f.qualname}: reads mub{{num_qubits}}-{{connectivity}}.txt")
+                elif ck[0] == "const" and nk == want_n and not any(("param", "connectivity") in key_leaves_of(k[1], r) for k in r.decisions if k[0] in ("truth", "isnone")):
+                    # one fixed table for every request: nothing on the path restricts the request to that connectivity
+                    rep.finding("W10", f"{fq}:file", f"{f.module.rel} {f.qualname} (path #{pi}): the table read at {ev[2]} is mub{{num_qubits}}-{ck[2]}.txt whatever connectivity is requested; the request's own table is mub{{num_qubits}}-{{connectivity}}.txt")
                 elif kind != "mub" or {nk, ck} == {want_n, want_c}:
                     rep.finding("W10", f"{fq}:file", f"{f.module.rel} {f.qualname} (path #{pi}): the table read at {ev[2]} is {kind}{{{fmt(nk)}}}-{{{fmt(ck)}}}.txt; the request's own table is mub{{num_qubits}}-{{connectivity}}.txt")
                 else:
                     raise AnalysisError(f"{fq}: the file name read at {ev[2]} is built from {fmt(nk)[:60]} / {fmt(ck)[:60]}: whether that names the requested table cannot be decided")
         if not seen:
             raise AnalysisError(f"{fq}: no table read on any path (anchor vanished)")
+
+
+def key_leaves_of(k, r=None):
+    """parameters mentioned by a symbolic key, looking through the heap objects it refers to"""
+    out = set()
+    seen = set()
+
+    def rec(x):
+        if isinstance(x, tuple) and x:
+            if x[0] == "param" and len(x) == 2:
+                out.add(x)
+            elif x[0] == "obj" and len(x) == 3 and r is not None and x[2] in r.heap and x[2] not in seen:
+                seen.add(x[2])
+                o = r.heap[x[2]]
+                for v in list(o.items or []) + ([o.elem] if o.elem is not None else []) + list(o.fields.values()):
+                    rec(vkey(v))
+            else:
+                for y in x[1:]:
+                    rec(y)
+    rec(k)
+    return out
 
 
 def hdr_key(k):
